@@ -259,6 +259,22 @@ func expect(p *pathDef, in *input) (e expectation) {
 	switch kind {
 	case refSilent:
 		return nothing("handler-silent", "handler wrote nothing")
+	case refBadPack:
+		// UDP, TCP and DoT pack in the handler's WriteMsg: it fails, the handler
+		// returns the error and "the server writes a SERVFAIL response if a
+		// handler returns an error".  DoH, DoQ and DNSCrypt record the response
+		// first and pack later: DoH then "tr[ies] writing an error response just
+		// in case" (500), DoQ aborts the connection with DOQ_PROTOCOL_ERROR when
+		// the response cannot be packed, and the DNSCrypt library answers
+		// SERVFAIL when its handler returns an error.
+		switch p.family {
+		case famDoH, famJSON:
+			return expectation{kind: expNothing, tag: "handler-write-error", why: "response cannot be packed after it was recorded"}
+		case famDoQ:
+			return expectation{kind: expQUICProtocolError, tag: "handler-write-error", why: "doq: response cannot be packed"}
+		default:
+			return expectation{kind: expServfail, tag: "handler-write-error", why: "handler returned the writer's pack error"}
+		}
 	case refError, refNetErr:
 		return expectation{kind: expServfail, tag: "handler-error", why: "handler returned an error"}
 	default:
